@@ -26,6 +26,13 @@ TU = "scriptplan/_cython/time_utils_cy.pyx"
 MP = "scriptplan/parser/macro_processor.py"
 
 MUTANTS = [
+    # ------------------------------------------------------------------ reverts of repaired defects F28-F30 (C11)
+    ("c11_leave_before_start_unclipped", "C11", [(RS, "ALL:range(max(start_idx, 0), min(end_idx, size))", "range(start_idx, min(end_idx, size))")]),
+    ("c11_header_without_end_accepted", "C11", [(TP, "        if project.attributes.get(\"end\") is None:\n            raise ValueError(",
+                                                 "        if False:\n            raise ValueError(")]),
+    ("c11_walk_begins_outside_window", "C11", [(TS, "        if self.currentSlotIdx < lowerLimit or self.currentSlotIdx > upperLimit:\n            self.isRunAway = True\n            return False\n\n        previous_effort",
+                                                "        previous_effort")]),
+    ("c11_prepass_ignores_frame", "C11", [(PJ, "                if any(d and not (self[\"start\"] <= d <= self[\"end\"]) for d in (start, end)):\n                    continue\n", "")]),
     # ------------------------------------------------------------------ C01
     ("c01_book_unguarded", "C01", [(RS, "        if not force and not self.available(sb_idx):\n            return 0.0\n\n        # Make sure task is in duties list",
                                     "        # Make sure task is in duties list")]),
